@@ -6,14 +6,15 @@ use super::*;
 use crate::verif_spec::*;
 use crate::{Color, Piece, PieceIndex, Square};
 
-// NOTE: a 32-byte static (an 8-byte `static mut u64` trips a Kani 0.68 deallocation artefact, see c05.rs)
-static mut SEEDS: [u64; 4] = [0; 4];
+// NOTE: statics of 32 bytes or more (an 8-byte `static mut u64` trips a Kani 0.68 deallocation artefact, see c05.rs)
+static mut SEEDS: [u64; 16] = [0; 16];
 
-/// the abstract attack function: two symbolic seeds mixed with piece index, square and occupancy (so that a wrong
-/// piece, a wrong square or a wrong occupancy handed to the callee changes the result)
+/// the abstract attack function: one symbolic 64-bit pattern per piece index, mixed with the square and the occupancy
+/// (so that a wrong piece, a wrong square or a wrong occupancy handed to the callee changes the result); kept free of
+/// multiplications and symbolic rotations so that 64 evaluations of it stay cheap for the solver
 fn abstract_attacks(piece: u8, square: u8, occ: u64) -> u64 {
     let s = unsafe { SEEDS };
-    s[0].rotate_left(square as u32) ^ s[1].rotate_left(piece as u32 * 3) ^ occ.rotate_left(7) ^ s[2]
+    s[(piece & 15) as usize] ^ (1u64 << square) ^ (occ & s[0]) ^ (occ >> 1 & s[15])
 }
 
 fn stub_compute(piece: PieceIndex, square: Square, occupancy: BitBoard) -> BitBoard {
@@ -77,101 +78,9 @@ fn any_position(max_per_kind: u32) -> ([u64; 16], Color) {
     (p, c)
 }
 
-fn from_occupancy_obligation(max_per_kind: u32) {
-    let (p, c) = any_position(max_per_kind);
-    let occ = p[1] | p[2] | p[3] | p[4] | p[5] | p[6] | p[9] | p[10] | p[11] | p[12] | p[13] | p[14];
-    let own = union_color_unrolled(&p, c);
-    let board = board_from(&p);
-    let m = AttackMap::from_occupancy(c, board.piece_map(), BitBoard::new(occ), BitBoard::new(own));
-    assert!(bb(m.all) == spec_union(&p, c, occ, false) & !own);
-    assert!(bb(m.pawn) == spec_union(&p, c, occ, true) & !own);
-    kani::cover!(own.count_ones() >= 3, "several own pieces reachable");
-    kani::cover!(c == Color::Black, "black reachable");
-}
-
 fn union_color_unrolled(p: &[u64; 16], c: Color) -> u64 {
     let b = color_u8(c) as usize * 8;
     p[b + 1] | p[b + 2] | p[b + 3] | p[b + 4] | p[b + 5] | p[b + 6]
-}
-
-#[kani::proof]
-#[kani::unwind(8)]
-#[kani::stub(crate::attacks::AttackGenerator::compute, stub_compute)]
-fn c10_from_occupancy_contract_2() {
-    from_occupancy_obligation(2)
-}
-
-#[kani::proof]
-#[kani::unwind(12)]
-#[kani::stub(crate::attacks::AttackGenerator::compute, stub_compute)]
-fn c10_from_occupancy_contract_10() {
-    from_occupancy_obligation(10)
-}
-
-/// Board level: colored_attacks / colored_pawn_attacks are from_occupancy of the board's own (immutable) fields,
-/// is_check(c) <=> king(c) stands on a square attacked by the opponent, and the lazily cached answers do not depend on
-/// the order of the queries or on cloning before/after a query.
-#[kani::proof]
-#[kani::unwind(8)]
-#[kani::stub(crate::attacks::AttackGenerator::compute, stub_compute)]
-fn c10_board_queries_contract() {
-    let (p, _) = any_position(1);
-    // both colours bounded for this obligation
-    kani::assume(
-        p[1].count_ones() <= 1 && p[2].count_ones() <= 1 && p[3].count_ones() <= 1 && p[4].count_ones() <= 1
-            && p[5].count_ones() <= 1 && p[6].count_ones() <= 1 && p[9].count_ones() <= 1 && p[10].count_ones() <= 1
-            && p[11].count_ones() <= 1 && p[12].count_ones() <= 1 && p[13].count_ones() <= 1 && p[14].count_ones() <= 1,
-    );
-    let occ = p[1] | p[2] | p[3] | p[4] | p[5] | p[6] | p[9] | p[10] | p[11] | p[12] | p[13] | p[14];
-    let board = board_from(&p);
-    assert!(bb(board.occupancy()) == occ);
-    let spec_w = spec_union(&p, Color::White, occ, false) & !union_color_unrolled(&p, Color::White);
-    let spec_b = spec_union(&p, Color::Black, occ, false) & !union_color_unrolled(&p, Color::Black);
-    let spec_wp = spec_union(&p, Color::White, occ, true) & !union_color_unrolled(&p, Color::White);
-
-    // clone BEFORE any query, then query in one order on the original and in the other order on the clone
-    let early_clone = board.clone();
-    let w1 = bb(board.colored_attacks(Color::White));
-    let b1 = bb(board.colored_attacks(Color::Black));
-    let b2 = bb(early_clone.colored_attacks(Color::Black));
-    let w2 = bb(early_clone.colored_attacks(Color::White));
-    assert!(w1 == spec_w && b1 == spec_b && w2 == spec_w && b2 == spec_b);
-    // asking again (now served from the cache) and asking a clone taken AFTER the queries
-    let late_clone = board.clone();
-    assert!(bb(board.colored_attacks(Color::White)) == spec_w);
-    assert!(bb(late_clone.colored_attacks(Color::White)) == spec_w && bb(late_clone.colored_attacks(Color::Black)) == spec_b);
-    assert!(bb(board.colored_pawn_attacks(Color::White)) == spec_wp);
-    // check detection
-    assert!(board.is_check(Color::White) == (p[6] & spec_b != 0));
-    assert!(late_clone.is_check(Color::Black) == (p[14] & spec_w != 0));
-    kani::cover!(board.is_check(Color::White), "check reachable");
-    kani::cover!(!board.is_check(Color::White) && p[6] != 0, "no check reachable");
-}
-
-/// State::is_check is Board::is_check of the side to move
-#[kani::proof]
-#[kani::unwind(8)]
-#[kani::stub(crate::attacks::AttackGenerator::compute, stub_compute)]
-fn c10_state_is_check_contract() {
-    let (p, turn) = any_position(1);
-    kani::assume(
-        p[1].count_ones() <= 1 && p[2].count_ones() <= 1 && p[3].count_ones() <= 1 && p[4].count_ones() <= 1
-            && p[5].count_ones() <= 1 && p[6].count_ones() <= 1 && p[9].count_ones() <= 1 && p[10].count_ones() <= 1
-            && p[11].count_ones() <= 1 && p[12].count_ones() <= 1 && p[13].count_ones() <= 1 && p[14].count_ones() <= 1,
-    );
-    let occ = p[1] | p[2] | p[3] | p[4] | p[5] | p[6] | p[9] | p[10] | p[11] | p[12] | p[13] | p[14];
-    let state = crate::State::new(
-        board_from(&p),
-        turn,
-        any_rights(),
-        any_opt_square(),
-        crate::Clock { halfmove_clock: kani::any(), fullmove_number: kani::any() },
-    );
-    let them = !turn;
-    let attacked = spec_union(&p, them, occ, false) & !union_color_unrolled(&p, them);
-    let king = p[pidx(turn, Piece::King)];
-    assert!(state.is_check() == (king & attacked != 0));
-    kani::cover!(state.is_check(), "check reachable");
 }
 
 // ---- loop-free, complete: check detection on top of the attacked-set contract -----------------------------------------
@@ -207,4 +116,137 @@ fn c10_is_check_contract() {
     assert!(state.is_check() == board.is_check(c));
     kani::cover!(board.is_check(c), "check reachable");
     kani::cover!(!board.is_check(c) && p[pidx(c, Piece::King)] != 0, "no check reachable");
+}
+
+// ---- from_occupancy with a SPIKE attack function: exact and cheap -------------------------------------------------------
+// A(piece, square, occ) = X if (piece, square, occ) is one symbolic triple, else 0.  For every position (<= 5 own pieces
+// per kind) the attack map must then be exactly X & !own when that piece stands on that square (and the occupancy handed
+// to the callee is the board's), and empty otherwise: each piece contributes exactly its own attack set, computed with the
+// right arguments, and nothing else contributes.  Together with the OR-structure of the loop this is the union formula.
+
+static mut SPIKE: [u64; 4] = [0; 4]; // piece index, square, occupancy, value
+
+fn stub_compute_spike(piece: PieceIndex, square: Square, occupancy: BitBoard) -> BitBoard {
+    let z = unsafe { SPIKE };
+    if piece.0 as u64 == z[0] && sq_u8(square) as u64 == z[1] && bb(occupancy) == z[2] {
+        BitBoard::new(z[3])
+    } else {
+        BitBoard::ZERO
+    }
+}
+
+/// what the spike function contributes to colour c's attack map on position p
+fn spike_expect(p: &[u64; 16], c: Color, pawns_only: bool) -> u64 {
+    let z = unsafe { SPIKE };
+    let base = color_u8(c) as u64 * 8;
+    let occ = p[1] | p[2] | p[3] | p[4] | p[5] | p[6] | p[9] | p[10] | p[11] | p[12] | p[13] | p[14];
+    let hit = z[0] >= base + 1 && z[0] <= base + 6 && z[1] < 64 && p[(z[0] & 15) as usize] & (1u64 << (z[1] & 63)) != 0 && z[2] == occ;
+    if hit && (!pawns_only || z[0] == base + 1) {
+        z[3] & !union_color_unrolled(p, c)
+    } else {
+        0
+    }
+}
+
+fn spike_position(max_per_kind: u32) -> [u64; 16] {
+    unsafe {
+        SPIKE = kani::any();
+    }
+    let p: [u64; 16] = kani::any();
+    kani::assume(boards_wf_unrolled(&p));
+    kani::assume(
+        p[1].count_ones() <= max_per_kind && p[2].count_ones() <= max_per_kind && p[3].count_ones() <= max_per_kind
+            && p[4].count_ones() <= max_per_kind && p[5].count_ones() <= max_per_kind && p[6].count_ones() <= max_per_kind
+            && p[9].count_ones() <= max_per_kind && p[10].count_ones() <= max_per_kind && p[11].count_ones() <= max_per_kind
+            && p[12].count_ones() <= max_per_kind && p[13].count_ones() <= max_per_kind && p[14].count_ones() <= max_per_kind,
+    );
+    p
+}
+
+#[kani::proof]
+#[kani::unwind(8)]
+#[kani::stub(crate::attacks::AttackGenerator::compute, stub_compute_spike)]
+fn c10_from_occupancy_spike() {
+    from_occupancy_spike(5)
+}
+
+#[kani::proof]
+#[kani::unwind(12)]
+#[kani::stub(crate::attacks::AttackGenerator::compute, stub_compute_spike)]
+fn c10_from_occupancy_spike_10() {
+    from_occupancy_spike(10)
+}
+
+/// Board level: colored_attacks / colored_pawn_attacks are from_occupancy of the board's own (immutable) fields, and the
+/// lazily cached answers do not depend on the order of the queries or on cloning before/after a query.
+#[kani::proof]
+#[kani::unwind(8)]
+#[kani::stub(crate::attacks::AttackGenerator::compute, stub_compute_spike)]
+fn c10_board_queries_contract() {
+    let p = spike_position(5);
+    let board = board_from(&p);
+    let spec_w = spike_expect(&p, Color::White, false);
+    let spec_b = spike_expect(&p, Color::Black, false);
+    let spec_wp = spike_expect(&p, Color::White, true);
+    // clone BEFORE any query, then query in one order on the original and in the other order on the clone
+    let early_clone = board.clone();
+    let w1 = bb(board.colored_attacks(Color::White));
+    let b1 = bb(board.colored_attacks(Color::Black));
+    let b2 = bb(early_clone.colored_attacks(Color::Black));
+    let w2 = bb(early_clone.colored_attacks(Color::White));
+    assert!(w1 == spec_w && b1 == spec_b && w2 == spec_w && b2 == spec_b);
+    // asking again (now served from the cache) and asking a clone taken AFTER the queries
+    let late_clone = board.clone();
+    assert!(bb(board.colored_attacks(Color::White)) == spec_w);
+    assert!(bb(late_clone.colored_attacks(Color::White)) == spec_w && bb(late_clone.colored_attacks(Color::Black)) == spec_b);
+    assert!(bb(board.colored_pawn_attacks(Color::White)) == spec_wp);
+    // check detection through the real (cached) attack maps
+    assert!(board.is_check(Color::White) == (p[6] & spec_b != 0));
+    assert!(late_clone.is_check(Color::Black) == (p[14] & spec_w != 0));
+    kani::cover!(board.is_check(Color::White), "check reachable");
+    kani::cover!(spec_w != 0 && spec_b == 0, "white spike reachable");
+}
+
+/// the same statement with fewer queries (quick tier): one colour, original vs. clone taken before vs. clone taken after
+#[kani::proof]
+#[kani::unwind(8)]
+#[kani::stub(crate::attacks::AttackGenerator::compute, stub_compute_spike)]
+fn c10_board_queries_quick() {
+    let p = spike_position(5);
+    let board = board_from(&p);
+    let c = any_color();
+    let spec = spike_expect(&p, c, false);
+    let early_clone = board.clone();
+    let a1 = bb(board.colored_attacks(c));
+    let late_clone = board.clone();
+    // the king of the other colour is in check exactly when it stands on an attacked square -- asked BEFORE the early
+    // clone has computed anything, and answered by the late clone from its copied cache
+    assert!(early_clone.is_check(!c) == (p[pidx(!c, Piece::King)] & spec != 0));
+    assert!(late_clone.is_check(!c) == (p[pidx(!c, Piece::King)] & spec != 0));
+    assert!(a1 == spec && bb(early_clone.colored_attacks(c)) == spec && bb(late_clone.colored_attacks(c)) == spec);
+    assert!(bb(board.colored_attacks(c)) == spec);
+    kani::cover!(spec != 0 && early_clone.is_check(!c), "check reachable");
+}
+
+fn from_occupancy_spike(max_per_kind: u32) {
+    let p = spike_position(max_per_kind);
+    let c = any_color();
+    let base = color_u8(c) as usize * 8;
+    let occ = p[1] | p[2] | p[3] | p[4] | p[5] | p[6] | p[9] | p[10] | p[11] | p[12] | p[13] | p[14];
+    let own = union_color_unrolled(&p, c);
+    let b = BitBoard::new;
+    let map = crate::utils::ArrayMap::new([
+        b(p[0]), b(p[1]), b(p[2]), b(p[3]), b(p[4]), b(p[5]), b(p[6]), b(p[7]),
+        b(p[8]), b(p[9]), b(p[10]), b(p[11]), b(p[12]), b(p[13]), b(p[14]), b(p[15]),
+    ]);
+    let m = AttackMap::from_occupancy(c, &map, BitBoard::new(occ), BitBoard::new(own));
+    let z = unsafe { SPIKE };
+    let k = z[0].wrapping_sub(base as u64); // kind of the spike piece if it is one of this colour's
+    let hit = z[0] >= base as u64 + 1 && z[0] <= base as u64 + 6 && z[1] < 64 && p[(z[0] & 15) as usize] & (1u64 << (z[1] & 63)) != 0 && z[2] == occ;
+    let expect = if hit { z[3] & !own } else { 0 };
+    assert!(bb(m.all) == expect);
+    assert!(bb(m.pawn) == if hit && k == 1 { expect } else { 0 });
+    kani::cover!(hit && k == 1 && expect != 0, "pawn spike reachable");
+    kani::cover!(hit && k == 5 && expect != 0, "queen spike reachable");
+    kani::cover!(!hit && own != 0, "miss reachable");
 }
